@@ -18,7 +18,7 @@ func RunC05(c *Ctx) {
 	r.Rule = engRule("Deciding monitor for C05: M-dir after EVERY single filesystem operation of every process (tables.list parsed independently; every named file exists, passes the independent decoder's structural pass, has the stack's hash size; ranges strictly increasing; a fresh NewStack succeeds and shows the last committed state) plus: no remove/rename-away of a file the current list names. A process crash does not change the directory, so the state observed after operation k is the state a crash after k leaves.")
 	e := newEngRunner(c)
 	defer e.cleanup()
-	aKinds := []string{"compactall", "autocompact", "add", "addmulti", "clean", "close", "compactexpiry", "reopen"}
+	aKinds := []string{"compactall", "autocompact", "add", "addmulti", "clean", "close", "compactexpiry", "reopen", "addmultistale"}
 	bSeqs := []string{"compactall", "autocompact", "add,compactall", "add,add,autocompact", "clean", "close", "add"}
 	recs := []eng.Recipe{{0, 0}, {60, 0, 0}, {200, 40, 0, 0}}
 	cases := pairCases(aKinds, bSeqs, recs, true)
@@ -488,7 +488,7 @@ func RunC16(c *Ctx) {
 	r.Rule = engRule("Deciding monitor for C16: M-own. Ledger of every file a process created (locks, *.reftmp, tables renamed into place but not yet listed, tables its commit dropped from the list): whenever a process returns from an API call its ledger must be empty, and when all processes are idle the directory must be exactly tables.list plus the tables it names (checked before and after the handles are closed); after crashes of OTHER processes Close and Clean of a live process must not remove a listed table, must not panic and return nil unless a dead process's list lock exists. Sequential histories with failed Adds, rejected transactions and empty stacks are part of the same check.")
 	e := newEngRunner(c)
 	defer e.cleanup()
-	aKinds := []string{"add", "addmulti", "compactall", "autocompact", "clean", "close", "addbad", "compactexpiry", "addempty", "addmultibad", "addmultiabandon"}
+	aKinds := []string{"add", "addmulti", "compactall", "autocompact", "clean", "close", "addbad", "compactexpiry", "addempty", "addmultibad", "addmultiabandon", "addmultistale"}
 	bSeqs := []string{"add", "compactall", "autocompact", "add,compactall", "clean", "close", "addmulti"}
 	recs := []eng.Recipe{{}, {0, 0}, {60, 0, 0}, {200, 40, 0, 0}}
 	cases := pairCases(aKinds, bSeqs, recs, true)
